@@ -1,0 +1,20 @@
+//go:build verif
+
+package fasthttp
+
+import "sync/atomic"
+
+// VerifC41SetAddrsIdx forces the rotation counter of the cached DNS entry for addr
+// (C41 correspondence harness: behaviour of the uint32 counter at wrap-around).
+func VerifC41SetAddrsIdx(d *TCPDialer, addr string, v uint32) bool {
+	item, ok := d.tcpAddrsMap.Load(addr)
+	if !ok {
+		return false
+	}
+	e, ok := item.(*tcpAddrEntry)
+	if !ok || e == nil {
+		return false
+	}
+	atomic.StoreUint32(&e.addrsIdx, v)
+	return true
+}
